@@ -24,8 +24,9 @@ composed from the record codecs of `B6.Model.Records` (L2) and the entry view of
   (`EachFeature`), `location` (`FindLocationByID`), `relationsOf` (`FindRelationsByFeature`).
 
 A Go panic is `BuildError.panic` / `none`.  Outside the model: file header, protobuf header, mmap, the
-search index, S2 (loop validity, orientation, `lastMarshalledLoopIsValid`: explicit loops are assumed to
-survive E7 quantisation), floats (coordinates are E7 integers throughout).
+search index, S2 (loop validity, orientation, `lastMarshalledLoopIsValid`: the loops of an explicit polygon that do not
+survive E7 quantisation are removed by the driver before the model sees them — a per-loop oracle), floats
+(coordinates are E7 integers throughout).
 -/
 namespace B6.Model.CompactIndex
 open B6.Model.Varint B6.Model.Records
